@@ -4,11 +4,18 @@ import (
 	"fmt"
 	"os"
 	"strings"
+
+	"golang.org/x/tools/go/ssa"
 )
 
 func init() { register("DBG", dbg) }
 
+var debugHooks []func(p *Prog)
+
 func dbg(p *Prog, r *Report) {
+	for _, h := range debugHooks {
+		h(p)
+	}
 	what := os.Getenv("DBG")
 	if strings.Contains(what, "storeops") {
 		for _, so := range p.StoreOps() {
@@ -59,4 +66,62 @@ func dbg(p *Prog, r *Report) {
 	r.OKTrivial("DBG", "debug", "-", "debug")
 	r.OK("DBG2", "debug", "-", "debug")
 	r.OK("DBG3", "debug", "-", "debug")
+}
+
+func init() {
+	if os.Getenv("DBGPURE") != "" {
+		debugPure = func(fn string, why string) { fmt.Fprintf(os.Stderr, "IMPURE %s: %s\n", fn, why) }
+	}
+}
+
+func init() {
+	debugHooks = append(debugHooks, func(p *Prog) {
+		if !strings.Contains(os.Getenv("DBG"), "ctxless") {
+			return
+		}
+		scope, _ := moduleScope(p, consensusEntries(p))
+		seen := map[string]int{}
+		for _, fn := range scope {
+			if fn.Blocks == nil || p.IsGenerated(fn) {
+				continue
+			}
+			for _, cs := range callSites(fn) {
+				cc := cs.Instr.Common()
+				if cs.Callee != nil && InModule(cs.Callee) {
+					continue
+				}
+				hasCtx := false
+				for _, a := range cc.Args {
+					if strings.HasSuffix(a.Type().String(), "types.Context") || a.Type().String() == "context.Context" {
+						hasCtx = true
+					}
+				}
+				var recv ssa.Value
+				if cc.IsInvoke() {
+					recv = cc.Value
+				} else if cs.Callee != nil && cs.Callee.Signature.Recv() != nil && len(cc.Args) > 0 {
+					recv = cc.Args[0]
+				}
+				if recv == nil || hasCtx {
+					continue
+				}
+				ll := ""
+				if u, ok := recv.(*ssa.UnOp); ok {
+					if l, ok := longLivedFieldRef(p, u.X); ok {
+						ll = l
+					}
+				}
+				if l, ok := longLivedField(p, recv); ok {
+					ll = l
+				}
+				if ll == "" {
+					continue
+				}
+				seen[ll+" :: "+cs.Name]++
+			}
+		}
+		for k, v := range seen {
+			fmt.Println("CTXLESS", v, k)
+		}
+	})
 }
